@@ -171,12 +171,12 @@ def run(c):
                     finally:
                         catii.ccubes.multiprocessing.pool.ThreadPool = saved
                     tried += 1
-                    if tried > 2500:
+                    if tried > 8000:
                         return {"violates": False, "note": "conflict not observable in %d interleavings (search budget)" % tried}
                     if not same(serial, res):
                         return {"violates": True, "schedule": {"first": A, "k_steps": k, "then": B, "opcode_level": opcode},
                                 "why": "interleaved result differs from the serial result"}
                     if sched.steps.get(A, 0) < k:
                         break
-                    k += 1 if k < 40 else max(1, k // 20)
+                    k += 1 if k < 500 else max(1, k // 50)
     return {"violates": False, "note": "conflict not observable in %d interleavings" % tried}
